@@ -47,6 +47,15 @@ func init() {
 	mut("C14", "revert-fix-action-prefix", "chain/transaction.go", "\t\tbandwidth += uint64(len(canoto__SerializeTx__Actions__tag)) + canoto.SizeBytes(actionBytes)", "\t\tbandwidth += uint64(len(actionBytes))", "per-action prefix not budgeted")
 	mut("C14", "maxfee-from-units-of-one-dimension", "chain/transaction.go", "\tmaxFee, err := fees.MulSum(unitPrices, units)", "\tmaxFee, err := fees.MulSum(unitPrices, fees.Dimensions{units[0]})", "max fee ignores four dimensions")
 
+	dyn := "abi/dynamic/reflect_marshal.go"
+	mut("C29", "revert-fix-bool", dyn, "\tcase \"bool\":\n\t\treturn reflect.TypeOf(false), nil\n", "", "bool fields cannot be rebuilt")
+	mut("C29", "revert-fix-outputs", dyn, "\t\toutput, ok := inputABI.FindOutputByName(typeName)\n\t\tif !ok {\n\t\t\treturn nil, fmt.Errorf(\"action or output %s not found in ABI\", typeName)\n\t\t}\n\t\ttypeID = output.ID", "\t\treturn nil, fmt.Errorf(\"action %s not found in ABI\", typeName)", "outputs cannot be encoded")
+	mut("C29", "label-type-mismatch", dyn, "\tcase \"uint16\":\n\t\treturn reflect.TypeOf(uint16(0)), nil", "\tcase \"uint16\":\n\t\treturn reflect.TypeOf(uint32(0)), nil", "uint16 fields rebuilt as uint32")
+	mut("C29", "serialize-tag-dropped", dyn, "`serialize:\"true\" json:\"%s\"`", "`json:\"%s\"`", "rebuilt fields are skipped by the codec")
+	mut("C29", "describe-skips-differently", "abi/abi.go", "\t\tif serializeTag != \"true\" {", "\t\tif serializeTag == \"\" {", "fields tagged serialize:\"false\" are described")
+	mut("C29", "decode-keeps-id-byte", dyn, "\treturn Unmarshal(inputABI, data[1:], actionType.Name)", "\treturn Unmarshal(inputABI, data, actionType.Name)", "type ID byte decoded as payload")
+	mut("C29", "field-order-reversed", dyn, "\t\t\tfields[i] = reflect.StructField{", "\t\t\tfields[len(fields)-1-i] = reflect.StructField{", "rebuilt struct has reversed field order")
+
 	vw := "internal/validitywindow/validitywindow.go"
 	mut("C10", "expiry-boundary", vw, "case containerTimestamp < executionTimestamp:", "case containerTimestamp <= executionTimestamp:", "expiry equal to block time rejected")
 	mut("C10", "future-boundary", vw, "case containerTimestamp > executionTimestamp+validityWindow:", "case containerTimestamp >= executionTimestamp+validityWindow:", "upper boundary off by one")
